@@ -10,6 +10,7 @@ import (
 	"math"
 	"os"
 	"path/filepath"
+	"runtime"
 	"sort"
 	"sync"
 	"syscall"
@@ -253,7 +254,9 @@ func (h *H) Finish() {
 	for _, f := range h.quiesce {
 		f()
 	}
-	out := map[string]any{"failed": h.Failed, "covered": h.Covered, "observed": h.Observed}
+	var ms runtime.MemStats
+	runtime.ReadMemStats(&ms)
+	out := map[string]any{"failed": h.Failed, "covered": h.Covered, "observed": h.Observed, "total_alloc": ms.TotalAlloc}
 	b, _ := json.Marshal(out)
 	fmt.Println("VERIFRT-RESULT " + string(b))
 	if h.tmp != "" {
